@@ -39,8 +39,8 @@ func (o Op) kindCoq() string {
 	return fmt.Sprintf("(KStorage %d)", o.P)
 }
 
-var valCoq = []string{"VA", "VB", "VC"}
-var valSrc = []string{"T.A()", "T.B()", "T.C()"}
+var valCoq = []string{"VA", "VB", "VC", "VR", "VQ"}
+var valSrc = []string{"T.A()", "T.B()", "T.C()", "<- T.mkR()", "<- T.mkQ()"}
 var modeCoq = []string{"LGet", "LEach", "LEachStop"}
 
 func (o Op) Coq() string {
@@ -117,9 +117,9 @@ func (o Op) Cadence() string {
 	getSlot := fmt.Sprintf("%s.storage.copy<Capability>(from: %s)", s, slot)
 	switch o.K {
 	case "OPut":
-		return fmt.Sprintf("let old = %s.storage.load<AnyStruct>(from: %s)\n%s.storage.save(%s, to: %s)\nlog(\"u\")", s, sp, s, valSrc[o.V], sp)
+		return fmt.Sprintf("T.clear(%s, %s)\n%s.storage.save(%s, to: %s)\nlog(\"u\")", s, sp, s, valSrc[o.V], sp)
 	case "OTake":
-		return fmt.Sprintf("let old = %s.storage.load<AnyStruct>(from: %s)\nlog(\"u\")", s, sp)
+		return fmt.Sprintf("T.clear(%s, %s)\nlog(\"u\")", s, sp)
 	case "OIssue":
 		if o.Acct {
 			return fmt.Sprintf("let c = %s.capabilities.account.issue<%s>()\nT.put(%s, %s, c)\nlog(\"i:\".concat(c.id.toString()))", s, bt, s, slot)
